@@ -403,3 +403,29 @@ Proof.
   do 2 eexists. split; [reflexivity|]. split; [reflexivity|]. split; [cbn; lia|]. split; [reflexivity|].
   split; [repeat constructor; intros []|]. split; reflexivity.
 Qed.
+
+(* ------------------------------------------------------------------ C16: the Succeeded condition is withdrawn only for an enabled restart *)
+
+Lemma smark_succeeded_is cs : has_cond (smark_succeeded cs) SSucceeded = true.
+Proof. unfold smark_succeeded. rewrite has_set. reflexivity. Qed.
+
+Theorem sug_restart_only_when_enabled cf e sug ws st1 stop st rv onf :
+  plan_exp_completed cf e sug = (ws, st1, stop) -> In (WSugStatus st rv, onf) ws -> s_is st SSucceeded = false ->
+  restart_enabled_e cf e = true /\ c_resume cf = FromVolume.
+Proof.
+  unfold plan_exp_completed, restart_enabled_e. intros P I S.
+  destruct (e_completed (e_st e)); [|inversion P; subst; destruct I].
+  assert (K : ~ In (WSugStatus st rv, onf)
+                (match c_resume cf, sug with
+                 | LongRunning, _ | _, None => []
+                 | _, Some s => if s_completed (s_st s) || s_restarting (s_st s) then []
+                                else [(WSugStatus (s_with_conds (s_st s) (smark_succeeded (ss_conds (s_st s)))) (s_rv s), Stop)]
+                 end)).
+  { destruct (c_resume cf), sug as [s|]; try (intros []; fail);
+      (destruct (s_completed (s_st s) || s_restarting (s_st s)); [intros []|intros [H|[]]; inversion H; subst];
+       unfold s_is, s_with_conds in S; cbn [ss_conds] in S; rewrite smark_succeeded_is in S; discriminate). }
+  destruct (restartable cf (e_st e) && _) eqn:R.
+  - inversion P; subst. apply in_app_or in I as [I|I]; [contradiction|]. split; [reflexivity|].
+    destruct (c_resume cf); try (destruct I; fail); try reflexivity.
+  - inversion P; subst. contradiction.
+Qed.
